@@ -1015,7 +1015,21 @@ func (s *MutableState) TransferFromCommon(
 		}
 
 		// Escrow commission.
-		if com != nil && !com.IsZero() {
+		//
+		// An escrow pool that has been slashed to zero while shares are still outstanding has no
+		// share price and cannot accept deposits. In that case the commission stays in the general
+		// balance instead of failing the whole transfer (callers treat a failure as fatal).
+		deadPool := to.Escrow.Active.Balance.IsZero() && !to.Escrow.Active.TotalShares.IsZero()
+		if com != nil && !com.IsZero() && deadPool {
+			if !ctx.IsCheckOnly() {
+				ctx.EmitEvent(abciAPI.NewEventBuilder(AppName).TypedAttribute(&staking.TransferEvent{
+					From:   staking.CommonPoolAddress,
+					To:     toAddr,
+					Amount: *com,
+				}))
+			}
+		}
+		if com != nil && !com.IsZero() && !deadPool {
 			var delegation *staking.Delegation
 			delegation, err = s.Delegation(ctx, toAddr, toAddr)
 			if err != nil {
